@@ -490,7 +490,11 @@ pub fn gen_invocation(t: &mut Tape<'_>, spec: &CmdSpec, io: &InvOpts) -> Invocat
                     let top = hi.min(lo.max(1) + 2);
                     t.range(lo.max(1), top)
                 };
-                let values: Vec<Bytes> = if k == 1 && a.value_delimiter.is_none() {
+                let values: Vec<Bytes> = if let ParserSpec::I64 { lo, hi } = &a.parser {
+                    // typed option: stay inside the parser's language
+                    let pool: Vec<i64> = [0i64, 5, 10, 7, 1].iter().copied().filter(|x| x >= lo && x <= hi).collect();
+                    (0..k).map(|_| if pool.is_empty() { lo.to_string().into_bytes() } else { t.pick(&pool).to_string().into_bytes() }).collect()
+                } else if k == 1 && a.value_delimiter.is_none() {
                     vec![gen_value(t, ValueKind::Wild, os, &term, None)]
                 } else if k == 1 {
                     vec![gen_value(t, ValueKind::Wild, os, &term, a.value_delimiter)]
